@@ -176,12 +176,74 @@ def probe_assign(decl, probe, o):
     return a
 
 
+def start_compare(decl, ps, o):
+    """Physical starting value of every ingredient that is a decision variable vs the prediction."""
+    out = []
+    m = decl['method']; N = m['N']
+    def val(key):
+        loc = o.ing.get(key)
+        return None if loc is None else o.x0[loc[0]] * loc[1]
+    groups = {}
+    def chk(group, key, p):
+        v = val(key)
+        if v is None: return
+        g = groups.setdefault(group, {'inc': 0, 'bad': []})
+        if isbad(p): g['inc'] += 1
+        elif not close(v, p): g['bad'].append('%s start=%r guess=%s' % (key, v, Fr(p[0], p[1])))
+        else: g.setdefault('ok', 0); g['ok'] = g.get('ok', 0) + 1
+    for k in range(N + 1):
+        for i in range(len(decl['states'])): chk('x', ('x', i, k), ps['X'][k][i])
+    for k in range(N):
+        for i in range(len(decl['controls'])): chk('u', ('u', i, k), ps['U'][k][i])
+    for i, v in enumerate(decl['vars']):
+        for c, p in enumerate(ps['V'][i]): chk('v', ('v', i, c), p)
+    if decl['T']['kind'] == 'free': chk('T', ('T', 0, 0), ps['T'])
+    if decl['t0']['kind'] == 'free': chk('t0', ('t0', 0, 0), ps['t0'])
+    if m['kind'] == 'DC':
+        M = m['M']; deg = m['degree']
+        for k in range(N):
+            for l in range(M):
+                for i in range(len(decl['states'])):
+                    if l >= 1: chk('xi', ('xi', i, k * M + l), ps['XI'][k][l][i])
+                    for j in range(deg): chk('xr', ('xr', i, (k * M + l) * deg + j), ps['XR'][k][l][j][i])
+                for i in range(len(decl['algs'])):
+                    for j in range(deg): chk('zr', ('zr', i, (k * M + l) * deg + j), ps['ZR'][k][l][j][i])
+    g_ = m['grid']
+    if g_['lt0']:
+        for k in range(1, N + 1): chk('grid', ('tn', 0, k), ps['gv']['t0l'][k])
+    if g_['lT'] or g_['kind'] == 'free':
+        for k in range(N):
+            if not (g_['kind'] != 'free' and k == 0): chk('grid', ('Tl', 0, k), ps['gv']['Tl'][k])
+    for grp, g in groups.items():
+        if g['bad']: out.append(('C10.start:' + grp, 'mismatch', '; '.join(g['bad'][:4])))
+        elif g['inc'] and not g.get('ok'): out.append(('C10.start:' + grp, 'inconclusive', ''))
+        else: out.append(('C10.start:' + grp, 'ok', ''))
+    return out
+
+
+FAMPREFIX = ('C09', 'C11', 'C14')
+
+
 def replay(rec):
+    out = replay0(rec)
+    fam = rec.get('fam')
+    if fam in FAMPREFIX:
+        out['results'] = [((c if c.startswith(fam + '.') or c in ('build', 'varmap', 'harness') else fam + '.' + c), s, d) for c, s, d in out['results']]
+    return out
+
+
+def replay0(rec):
     """Returns dict(results=[(clause, status, detail)], error=None|str)."""
     decl, probe, pred = rec['decl'], rec['probe'], rec['pred']
     res = []
+    after = rec.get('sc', {}).get('when') == 'after'
     try:
-        b = build(decl)
+        b = build(decl, after_init=after)
+        if after:
+            from observe import transcribe
+            from build import apply_guesses
+            transcribe(b)
+            quiet(apply_guesses, b, decl)
         o = observe(b)
     except Exception as e:
         return {'results': [('build', 'error', '%s: %s' % (type(e).__name__, str(e).splitlines()[0] if str(e) else ''))],
@@ -234,6 +296,25 @@ def replay(rec):
     if isbad(pred['f']): res.append(('C05.f', 'inconclusive', 'BAD arithmetic'))
     else: res.append(('C05.f', 'ok' if close(f, pred['f']) else 'mismatch', 'obs=%r pred=%s' % (f, Fr(*pred['f']))))
 
+    # ---- starting point in physical units (C10), T >= 0 (C11.b), scales of solver variables (C14.a)
+    if 'start' in pred:
+        res.extend(start_compare(decl, pred['start'], o))
+    if 'tpos' in pred:
+        trows = [r for r in recs if r['cid'] is None and r['kind'] == 'ineq' and r['classes'] == ['T'] and len(r['vals']) == 1]
+        if isbad(pred['tpos']['slack']): res.append(('C11.b:tpos', 'inconclusive', ''))
+        elif pred['tpos']['present']:
+            hit = [r for r in trows if close(r['vals'][0], pred['tpos']['slack'])]
+            res.append(('C11.b:tpos', 'ok' if hit else 'mismatch', 'rows on T alone: %s ; expected one with slack T=%s' % ([r['vals'] for r in trows], Fr(*pred['tpos']['slack']))))
+        else:
+            res.append(('C11.b:tpos', 'ok' if not trows else 'mismatch', 'fixed horizon but rows on T: %s' % [r['vals'] for r in trows]))
+    if 'scales' in pred:
+        bad = []
+        for kind, key in (('x', 'x'), ('u', 'u'), ('v', 'v')):
+            for i, sc_ in enumerate(pred['scales'][kind]):
+                for (k_, i_, c_), loc in o.ing.items():
+                    if k_ == key and i_ == i and loc is not None and not close(loc[1], sc_):
+                        bad.append('%s%d@%d: d(physical)/d(solver variable)=%r, declared scale %s' % (key, i + 1, c_, loc[1], Fr(*sc_)))
+        res.append(('C14.a:varscale', 'mismatch' if bad else 'ok', '; '.join(bad[:4])))
     # ---- read-backs
     for ri, (rd, pr) in enumerate(zip(decl['reads'], pred['reads'])):
         tag = '%s:read%d:%s:%s' % (rd.get('tag', 'read'), ri, rd['kind'], rd.get('grid', ''))
